@@ -11,7 +11,7 @@ ID = "C01"
 LEVEL = "model_checking"
 DESIGN_REF = "DESIGN.md 4 / C01"
 RULE = ("bounded-exhaustive enumeration, level by level, of every connected labelled multigraph topology x "
-        "kind assignment x orientation bitmask x reference node x label tuple x value palette x id scheme; "
+        "kind assignment (plus the family of well-posed small networks with one extra branch whose two terminals are the same node) x orientation bitmask x reference node x label tuple x value palette x id scheme; "
         "shards partition the space so every input is generated once; an input is counted in states when it is "
         "well-posed (exact determinant over Q(i) of its tableau, decided per topology/kind/palette class) and "
         "judged; non-trivial = judged and the reference solution is not identically zero; distinctness is by "
@@ -60,7 +60,44 @@ def shards(tier):
         for ti in range(len(topos)):
             for ch in sp.chunks(range(len(allk)), per):
                 out.append(("N(%d,%d)|K%d" % (n, b, len(kinds)), (n, b, ti, kinds, ch[0], ch[-1] + 1, pals, labs, full)))
+    return out + selfloop_shards(tier)
+
+
+SELF_KINDS = ("Z", "Y", "I", "LI", "LV", "load")
+
+
+def selfloop_shards(tier):
+    """well-posed base networks plus ONE extra branch whose two terminals are the same node (a shorted element)"""
+    out = []
+    bases = [(2, 1, cm.KINDS7), (2, 2, cm.KINDS7), (3, 2, cm.KINDS7), (3, 3, cm.KINDS3 if tier == "quick" else cm.KINDS7)]
+    for (n, b, kinds) in bases:
+        for ti in range(len(sp.topologies(n, b))):
+            out.append(("self-loop N(%d,%d)+1|K%d" % (n, b, len(kinds)), ("self", n, b, ti, kinds)))
     return out
+
+
+def run_selfloop(desc, res):
+    _, n, b, ti, kinds = desc
+    topo = sp.topologies(n, b)[ti]
+    keys = set()
+    for kt in itertools.product(kinds, repeat=b):
+        if not cm.class_well_posed(topo, kt, "real"):
+            res["evals"] += 1
+            bump(res["skipped"], "ill_posed_class")
+            continue
+        for orient in (0, 2 ** b - 1):
+            for ref_idx in range(n):
+                labels = labels_for("plain" if ref_idx % 2 == 0 else "odd", n)
+                base = cm.build_netlist(topo, kt, orient, ref_idx, labels, "real", sp.IDS_ASC[:b])
+                for node in labels:
+                    for sk in SELF_KINDS:
+                        for pos in (0, b):
+                            extra = cm.build_netlist(((0, 1),), (sk,), 0, 0, (node, node), "real", ["self"])["branches"][0]
+                            extra[4] = [x if not isinstance(x, int) else x + 40 for x in extra[4]]
+                            br = list(base["branches"])
+                            br.insert(pos, extra)
+                            res["evals"] += 1
+                            judge({"ref": base["ref"], "branches": br}, "real", res, keys)
 
 
 def labels_for(name, n):
@@ -68,8 +105,11 @@ def labels_for(name, n):
 
 
 def run_shard(desc):
-    n, b, ti, kinds, k0, k1, pals, labs, full = desc
     res = new_result()
+    if desc[0] == "self":
+        run_selfloop(desc, res)
+        return res
+    n, b, ti, kinds, k0, k1, pals, labs, full = desc
     topo = sp.topologies(n, b)[ti]
     allk = list(itertools.product(kinds, repeat=b))
     keys = set()
